@@ -139,6 +139,15 @@ func (e *enumCtx) roundTrip(p *refcodec.Packet, idAuto bool, counter uint64) {
 		e.fail(p.Type, shape, fmt.Sprintf("Decode does not consume its own encoding: %d of %d bytes", dn, n), desc)
 		return
 	}
+	// the caller reuses the buffer it passed to Encode: the encoded object keeps its fields
+	// (an automatically assigned identifier included)
+	for i := range buf {
+		buf[i] = 0x5a
+	}
+	if d := sameFields(&want, fromLib(m)); d != "" {
+		e.fail(p.Type, shape, "after the caller reused the buffer it had passed to Encode, the encoded object's getters changed: "+d, desc)
+		return
+	}
 	if d := sameFields(&want, fromLib(m2)); d != "" {
 		e.fail(p.Type, shape, "decoded fields differ from the encoded ones: "+d, desc)
 		return
